@@ -251,12 +251,14 @@ struct Lossy {
     if (fec_events >= 30 && plc_err > 0) {
       double ratio = fec_err / plc_err;
       run.count("fec_gain_checked"); long milli = (long)(ratio * 1000); if (run.stat["max:fec_vs_plc_error_milli"] < milli) run.stat["max:fec_vs_plc_error_milli"] = milli;
-      if (getenv("OPSIM_CALIB")) fprintf(stderr, "C09FEC ratio=%.4f events=%ld seed=%llu lvl=%.4f worse=%.3f\n", ratio, fec_events, (unsigned long long)cur_seed, plc_lvl_err > 0 ? fec_lvl_err / plc_lvl_err : -1.0, (double)fec_worse / fec_events);
-      if (ratio > ALPHA) REPORT(run, prop, "fec_not_better_than_plc", "error energy FEC/PLC = %.3f over %ld isolated losses with LBRR", ratio, fec_events);
+      if (getenv("OPSIM_CALIB")) fprintf(stderr, "C09FEC ratio=%.4f events=%ld seed=%llu fms=%d lvl=%.4f worse=%.3f\n", ratio, fec_events, (unsigned long long)cur_seed, log.empty() ? 0 : log.back().frame48 / 48, plc_lvl_err > 0 ? fec_lvl_err / plc_lvl_err : -1.0, (double)fec_worse / fec_events);
+      int fms = log.empty() ? 20 : log.back().frame48 / 48;
+      double alpha = fms <= 20 ? ALPHA : fms <= 40 ? ALPHA40 : ALPHA60;
+      if (ratio > alpha) REPORT(run, prop, "fec_not_better_than_plc", "error energy FEC/PLC = %.3f (bound %.2f) over %ld isolated losses with LBRR, %d ms packets", ratio, alpha, fec_events, fms);
     }
   }
   // calibrated bounds (calib/thresholds.json C09.*)
-  static constexpr double KAPPA_NB = 6.0; static constexpr double KAPPA = 14.0, RHO = 0.1, ALPHA = 0.4, THETA_DB = -20.0;
+  static constexpr double KAPPA_NB = 6.0; static constexpr double KAPPA = 14.0, RHO = 0.1, ALPHA = 0.45, ALPHA40 = 1.65, ALPHA60 = 0.8, THETA_DB = -20.0;
   void finish_recovery(double err, double ref, long samples, bool celt) {
     if (ref <= 0) return;
     double db = 10 * log10(std::max(err / ref, 1e-12));
@@ -350,7 +352,7 @@ Plan gen(uint64_t seed, int tier) {
     // short speech-like bursts with pauses: the level changes from frame to frame, so a frame reconstructed from real data (LBRR)
     // is told apart from an extrapolation of the previous one by its level, whatever the waveform phase does
     p.ops.push_back(mkop("SRC", {SRC_VOICED, r.pick({110, 150, 220}), r.pick({300, 500, 900}), r.range(1, 1000), r.pick({120, 160, 200, 300})}));
-    int fidx = 3;
+    int fidx = r.pick({3, 3, 4, 5});   // 20 / 40 / 60 ms packets: the redundant copy of every SILK frame of a multi-frame packet must be the right one
     int n = (int)((tier ? 30 : 14) * 1000 / (kFrames48[fidx] / 48)), period = std::max(4, (int)r.pick({170, 230, 290}) / (kFrames48[fidx] / 48));
     for (int i = 0; i < n; i++) { p.ops.push_back(mkop("ENC", {fidx, 1500, 2})); if (i > 10 && i % period == period / 2) p.ops.push_back(mkop("NET", {0})); }
     return p;
